@@ -126,7 +126,7 @@ def chk_case(inp, c):
         if min(smax) < 1e-2:
             c.cell("unmet:only-vanishing-scales")
             c.unmet("only vanishing scales are feasible (targets cannot be scaled into the gamut)")
-    est = c.call(gen.make_estimator, dreye, inp, _where="ReceptorEstimator+register_system")
+    est = gen.live_or_new(c, dreye, inp)
     kw = dict(solver=cp.CLARABEL) if inp["solver"] == "clarabel" else {}
     okc, out = c.try_call(est.fit_adaptive, B.copy(), neutral_point=(None if inp["neutral"] is None else inp["neutral"].copy()),
                           delta_norm1=d1, delta_radius=dr, adaptive_objective=obj, scale_w=inp["scale_w"], **kw)
@@ -209,4 +209,18 @@ def chk_case(inp, c):
     c.note("setup", {"N": N, "objective": obj, "scale_w": inp["scale_w"], "all_inside": all_in})
 
 
-M.add("adaptive", gen_case, chk_case, weight=1, min_held=100)
+M.add("adaptive", gen_case, chk_case, weight=6, min_held=100)
+
+
+def gen_rereg(rng, i):
+    s = gen_case(rng, i)
+    s["rereg_seed"] = int(rng.integers(0, 2 ** 31 - 1))
+    return s
+
+
+def chk_rereg(inp, c):
+    """The adaptive fit uses the CURRENTLY registered system: fit, change one registration on the same estimator, fit again."""
+    gen.rereg_check(c, dreye, inp, lambda est: est.fit_adaptive(inp["B"], solver=cp.CLARABEL), chk_case)
+
+
+M.add("adaptive_after_reregistration", gen_rereg, chk_rereg, weight=1, min_held=15)
